@@ -59,14 +59,6 @@ def build (fmt : String) (raw : Bytes) : Option Ext :=
   | "bam" => some (buildBam raw)
   | _ => buildDelimited delimitedFixed 9 raw
 
-/-- column j of the entry type as text (`get_field_range_as_text(j, j+1)`) -/
-def column (fmt : String) (e : Ext) (j : Nat) : List Bytes :=
-  match fmt, j with
-  | "sam", 11 => e.samExtra
-  | "vcfg", 8 => if delimitedFixed then e.rest 8 else e.restOld 8
-  | "fastq", 2 => e.fieldText 3
-  | _, _ => e.fieldText j
-
 def errIdx : Json := Json.mkObj [("err", str "index")]
 
 def handle (op : String) (j : Json) : Except String Json := do
@@ -114,18 +106,14 @@ def handle (op : String) (j : Json) : Except String Json := do
     let inv := exts.all (·.invB)
     let kline := fmt == "fastq" || fmt == "fasta2"
     let fidx : List Nat := if fmt == "fastq" then [0, 1, 3] else [0, 1]
-    let joinK := fun (n : Nat) (cols : List (List Bytes)) => match fmt with
-      | "fastq" => joinKLine 64 n (cols.take 2 ++ [List.replicate n [43]] ++ cols.drop 2)
-      | _ => joinKLine 62 n cols
+    let lay : Layout := match fmt with
+      | "fastq" => .kline 64 true
+      | "fasta2" => .kline 62 false
+      | _ => .delimited 9
+    let kinds := colKinds fmt nF
     let lazyOut := fun (e : Ext) =>
         if repl.isEmpty && !forceJoin then Json.mkObj [("out", bstr (toBytes hdr ++ e.bytes)), ("inv", Json.bool inv)]
-        else
-          let cols := (List.range nF).map (fun jj =>
-            match repl.find? (·.1 == jj) with
-            | some (_, col) => col
-            | none => column fmt e jj)
-          let body := if kline then joinK e.len cols else joinDelimited 9 e.len cols
-          Json.mkObj [("out", bstr (toBytes hdr ++ body)), ("inv", Json.bool inv)]
+        else Json.mkObj [("out", bstr (toBytes hdr ++ e.writeModified lay kinds repl)), ("inv", Json.bool inv)]
     let model : Json :=
       if kline then
         -- buffers without `concatenate`: np.concatenate materialises the operands (eager table of field texts)
@@ -133,11 +121,7 @@ def handle (op : String) (j : Json) : Except String Json := do
         | none => errIdx
         | some (.lz e) => lazyOut e
         | some (.eg rows) =>
-          let cols := (List.range nF).map (fun jj =>
-            match repl.find? (·.1 == jj) with
-            | some (_, col) => col
-            | none => rows.map (fun r => r.getD jj []))
-          Json.mkObj [("out", bstr (toBytes hdr ++ joinK rows.length cols)), ("inv", Json.bool inv)]
+          Json.mkObj [("out", bstr (toBytes hdr ++ writeRowsModified lay nF repl rows)), ("inv", Json.bool inv)]
       else
         match prog.evalExt exts with
         | none => errIdx
